@@ -48,7 +48,7 @@ def build(model, ranks=None, plain=False):
             kw["workplace_priority_rule"] = WR(tj["prule"])
         sub = tj.get("sub")
         if sub is not None:
-            kw["auto_task"] = True
+            kw["auto_task"] = bool(tj.get("auto", True))  # the class default of a sub-project task is auto_task=True
             t = SubTask(
                 file_path=sub.get("file"),
                 unit_timedelta=datetime.timedelta(seconds=sub.get("unit_s", 60)),
